@@ -57,7 +57,7 @@ LeafArgs(kw) ==
     [] kw = "required" -> {<<"a">>, <<"a", "b">>, <<"class">>}
     [] kw = "depsL" -> {<< <<"a", <<"b">> >> >>}
     [] kw = "default" -> DefaultLits
-    [] kw = "description" -> {"d"}
+    [] kw = "description" -> {"d"} \cup (IF Rich THEN {" d  x"} ELSE {})    \* leading / inner layout whitespace
     [] kw = "title" -> {"T"}
 
 PropNames == {"a", "b", "class"}
